@@ -228,7 +228,8 @@ static void check(Res& R, const char* entry, const char* cat, const arr_cmplx& y
         const C d = C{y[k].re, y[k].im} - ref.X[i];
         e2 += n2(d);
     }
-    if (!ref.full) e2 = e2 * ld(n) / ld(ref.ks.size());
+    // when only some bins are held, e2 is a LOWER bound of ||Y - X||^2 (no extrapolation: errors of structured
+    // inputs concentrate in few bins), so exceeding the bound is a definite violation
     ld err = sqrtl(e2);
     ld rel;
     if (ref.norm == 0) rel = (err == 0) ? 0 : 1e30L;
@@ -341,11 +342,11 @@ static void sweep(int n, uint64_t seed, const SweepCfg& cfg, Res& R) {
     if (full) { ks.resize(n); for (int k = 0; k < n; ++k) ks[k] = k; }
     else {
         std::set<int> s{0, 1, n - 1, n / 2, (n - n / 2) % n};
-        while (int(s.size()) < 64) { const int k = rng.range(0, n - 1); s.insert(k); s.insert((n - k) % n); }
+        while (int(s.size()) < 256) { const int k = rng.range(0, n - 1); s.insert(k); s.insert((n - k) % n); }
         ks.assign(s.begin(), s.end());
     }
-    std::map<int, int> pos;
-    for (size_t i = 0; i < ks.size(); ++i) pos[ks[i]] = int(i);
+    std::vector<int> ks_all(n);
+    for (int k = 0; k < n; ++k) ks_all[k] = k;
     R.stats["len_kind_c_" + plan_kind_c(n)]++;
     R.stats["len_kind_r_" + plan_kind_r(n)]++;
     R.stats[full ? "lengths_all_bins" : "lengths_sampled_bins"]++;
@@ -356,6 +357,20 @@ static void sweep(int n, uint64_t seed, const SweepCfg& cfg, Res& R) {
         if (n == 1 && (cls == IMPM || cls == IMPL)) continue;
         const Input in = make_input(cls, n, rng);
         const CV& x = in.x;
+        // classes whose DFT has a closed form get all bins at every length; the others all bins up to 4096 and a
+        // sample (incl. the tone's own bin and its neighbours) above
+        const bool closed = cls == IMP0 || cls == IMPM || cls == IMPL || cls == CONST || cls == ALT;
+        const bool cfull = full || closed;
+        std::vector<int> ksc = cfull ? ks_all : ks;
+        if (!cfull && cls == TONE) {
+            std::set<int> s2(ksc.begin(), ksc.end());
+            for (int d = -2; d <= 2; ++d) { const int k = ((in.p + d) % n + n) % n; s2.insert(k); s2.insert((n - k) % n); }
+            ksc.assign(s2.begin(), s2.end());
+        }
+        const std::vector<int>& ks = ksc;
+        std::map<int, int> pos;
+        if (!cfull) for (size_t i = 0; i < ks.size(); ++i) pos[ks[i]] = int(i);
+        const bool full = cfull;
         // closed forms are cross-checked against the direct sum for small n (the reference checks itself)
         Ref ref{n, ks, ref_bins(cls, in, T, ks, n <= 48), full, 0, 0, 0};
         if (n <= 48 && (cls == IMP0 || cls == IMPM || cls == IMPL || cls == CONST || cls == ALT)) {
@@ -371,7 +386,7 @@ static void sweep(int n, uint64_t seed, const SweepCfg& cfg, Res& R) {
         for (int m = 0; m < n; ++m) xr[m] = {x[m].re, 0};
         Ref rref{n, ks, CV(ks.size()), full, 0, xr[0].re * n, 0};
         for (size_t i = 0; i < ks.size(); ++i) {
-            const C a = ref.X[i], b = cj(ref.X[size_t(pos[(n - ks[i]) % n])]);
+            const C a = ref.X[i], b = cj(ref.X[full ? size_t((n - ks[i]) % n) : size_t(pos[(n - ks[i]) % n])]);
             rref.X[i] = {(a.re + b.re) / 2, (a.im + b.im) / 2};
         }
         rref.norm = full ? l2(rref.X) : sqrtl(ld(n)) * l2(xr);
